@@ -57,6 +57,18 @@ def use_impl():
     return tinyflux
 
 
+def run_translator(script, src_rel, out_rel, refused):
+    """regenerate one generated Coq file from the tree under test; refusals (source outside the translated fragment) are collected"""
+    rc, out = sh([PY, str(VERIF / "harness" / script), str(REPO / src_rel), str(COQ / out_rel)], timeout=60)
+    refused.extend(l for l in out.splitlines() if l.startswith("REFUSED"))
+    return rc
+
+
+IO_TRANSLATOR_COV = {"source": "tinyflux/storages.py: CSVStorage.append / _write([]) / reset / _init_temp_storage / _swap_temp_with_primary / _cleanup_temp_storage / __iter__ / "
+                               "close and the options of every open() / NamedTemporaryFile() -> coq/gen/IOGen.v (symbolic execution along the success path, regenerated on this run)",
+                     "equivalence_theorems": "gen_script_of_eq, gen_handle_options (proofs/IOGenP.v)"}
+
+
 class BuildLock:
     def __enter__(self):
         self.f = open(COQ / ".build.lock", "w")
